@@ -463,6 +463,11 @@ class HamiltonianChain(MarkovChain):
         )
 
         chain.temperature = 1.0 / chain.inv_temp
+        inv_mass = D["inv_mass"]
+        chain.mass = get_particle_mass(
+            inverse_mass=float(inv_mass) if inv_mass.ndim == 0 else inv_mass,
+            n_parameters=int(D["n_parameters"]),
+        )
         chain.probs = list(D["probs"])
         chain.leapfrog_steps = list(D["leapfrog_steps"])
         chain.n_parameters = int(D["n_parameters"])
